@@ -15,7 +15,8 @@ Fixpoint join (sep : N) (ts : list text) : text :=
 (* SToks: ONE write_token call whose text consists of several reader tokens
    separated by single blanks (the RFC 3597 generic form is written like that);
    the usual case is a single token *)
-Inductive sop := SToks (sh : tshape) (more : list tshape) | SBegin | SEnd | SComment (c : text).
+(* SEmpty: a write_token call with an empty text (e.g. Base16 of no octets) *)
+Inductive sop := SToks (sh : tshape) (more : list tshape) | SBegin | SEnd | SComment (c : text) | SEmpty.
 Notation STok sh := (SToks sh []).
 
 Definition erase (o : sop) : op :=
@@ -24,6 +25,7 @@ Definition erase (o : sop) : op :=
   | SBegin => OBegin
   | SEnd => OEnd
   | SComment c => OComment c
+  | SEmpty => OTok []
   end.
 
 Definition good_sop (o : sop) : Prop :=
@@ -48,6 +50,7 @@ Fixpoint expect (multi sp : bool) (l : list sop) : list tok :=
   | SToks sh more :: r => shape_tok sp sh :: map (shape_tok true) more ++ expect multi true r
   | SBegin :: r | SEnd :: r => expect multi (sp || multi) r
   | SComment _ :: r => expect multi sp r
+  | SEmpty :: r => expect multi sp r
   end.
 
 (* reader state after the text written so far.  When the writer is not at the
@@ -106,6 +109,16 @@ Proof.
       rewrite <- !app_assoc. reflexivity.
 Qed.
 
+(* an empty token: only its separator is written *)
+Lemma rel_empty first out p ts b c : rel first out p ts b -> c = 32 \/ c = 9 ->
+  rel false (out ++ (if first then [] else [c]) ++ []) p ts (if first then b else true).
+Proof.
+  intros R C rest [F|D]; [discriminate|]. rewrite app_nil_r. destruct first.
+  - rewrite app_nil_r. apply R. left. reflexivity.
+  - rewrite <- app_assoc. cbn [app]. destruct (ws_delim c rest C) as [D1 W1].
+    rewrite R by (right; exact D1). apply run_ws, W1.
+Qed.
+
 Lemma rev_toks_app {A} (X : list A) t ts rest : rev (rev X ++ t :: ts) ++ rest = rev ts ++ t :: X ++ rest.
 Proof. rewrite rev_app_distr, rev_involutive. cbn [rev]. rewrite <- !app_assoc. reflexivity. Qed.
 
@@ -130,7 +143,7 @@ Proof.
   induction l as [|o l IH]; intros first out ts b G R.
   - cbn [map fold_left snd expect]. rewrite app_nil_r. eapply rel_final, R.
   - inversion G as [|? ? Go Gl]; subst. cbn [map fold_left].
-    destruct o as [sh more| | |c]; cbn [erase simple_step expect orb].
+    destruct o as [sh more| | |c|]; cbn [erase simple_step expect orb].
     + destruct Go as [Go Gm].
       rewrite (IH false _ (rev (map (shape_tok true) more) ++ shape_tok (if first then b else true) sh :: ts) false Gl).
       * apply f_equal. apply rev_toks_app.
@@ -138,6 +151,8 @@ Proof.
     + rewrite orb_false_r. apply IH; assumption.
     + rewrite orb_false_r. apply IH; assumption.
     + apply IH; assumption.
+    + pose proof (IH false _ ts (if first then b else true) Gl (rel_empty first out 0 ts b simple_sep R (or_introl eq_refl))) as X.
+      cbn [negb] in X. destruct first; exact X.
 Qed.
 
 Theorem simple_tokens l : Forall good_sop l ->
